@@ -32,7 +32,10 @@ def loop_cases():
             for rung in ("heat_consumer", "fc_hex", "hex"):
                 for load in (None, "sink", "source"):
                     for oos in (None, 0):
-                        for eg in (None, "flow", "return", "mid"):
+                        for eg in (None, "flow", "mid"):
+                            # an ext grid on the return side over-determines a pressure pump; a load needs a slack
+                            if (eg is None and load) or (eg == "mid" and pump != "circ_pump_mass"):
+                                continue
                             out.append({"scope": "L", "k": k, "pump": pump, "rung": rung, "load": load, "oos": oos,
                                         "eg": eg})
     return out
